@@ -49,7 +49,8 @@ def suite_passes():
     return ok, r.stdout[-1500:]
 
 def run_check(prop):
-    r = sh([os.path.join(VERIF, "check"), prop, "--tier", "quick"], cwd=VERIF)
+    os.makedirs("/tmp/selftest-evidence", exist_ok=True)
+    r = sh([os.path.join(VERIF, "check"), prop, "--tier", "quick"], cwd=VERIF, env=dict(os.environ, VERIF_EVIDENCE_DIR="/tmp/selftest-evidence"))
     fps = [l.strip() for l in r.stdout.splitlines() if l.strip().startswith("fingerprint ")]
     return r.returncode, fps, r.stdout[-800:]
 
@@ -112,7 +113,7 @@ def main(argv):
     assert clean_repo()
     # leave the harness built against the clean tree again
     sh([os.path.join(VERIF, "check"), "setup"], cwd=VERIF)
-    sh(["rm", "-rf", "/tmp/selftest-repo-target"])
+    sh(["rm", "-rf", "/tmp/selftest-repo-target", "/tmp/selftest-evidence"])
     print("self-test: %d mutants, %d not (fully) detected" % (len(rows), bad))
     return 0 if bad == 0 else 1
 
